@@ -11,9 +11,26 @@ usage: eval_seeded.py <Cxx> <A|B> [--tier quick|thorough] [--checks C01,C05,...]
 """
 import json, os, shutil, subprocess, sys, time
 
-ROOT = os.path.dirname(os.path.dirname(os.path.abspath(__file__)))
-REPO = "/repo"
+KEEP_ROOT = os.path.dirname(os.path.dirname(os.path.abspath(__file__)))
+# EVAL_COPY=1: run against a private clone of /repo and a private copy of /verif (in /tmp/evalcopy), so
+# that /repo stays untouched (other runs may be building from it); results are still kept in /verif/seeded
+COPY = os.environ.get("EVAL_COPY") == "1"
+ROOT = "/tmp/evalcopy/verif" if COPY else KEEP_ROOT
+REPO = "/tmp/evalcopy/repo" if COPY else "/repo"
 WT = "/tmp/confirm_wt"
+
+def prepare_copy():
+    os.makedirs("/tmp/evalcopy", exist_ok=True)
+    if not os.path.exists(REPO):
+        assert sh("git clone -q /repo %s" % REPO)[0] == 0
+    sh("git fetch -q origin && git reset -q --hard origin/HEAD && git clean -fdq", REPO)
+    head = subprocess.check_output(["git", "-C", "/repo", "rev-parse", "HEAD"], text=True).strip()
+    sh("git reset -q --hard %s" % head, REPO)
+    sh("rsync -a --delete --exclude seeded --exclude .git --exclude replays --exclude evidence --exclude mc/target %s/ %s/" % (KEEP_ROOT, ROOT))
+    os.makedirs(ROOT + "/evidence", exist_ok=True)
+    p = ROOT + "/mc/Cargo.toml"
+    t = open(p).read().replace('path = "/repo"', 'path = "%s"' % REPO)
+    open(p, "w").write(t)
 
 def sh(cmd, cwd=None, timeout=None, env=None):
     try:
@@ -68,19 +85,21 @@ def main():
             rnd = sys.argv[i + 1]
     src = "/tmp/mut%s/%s/out" % (rnd if rnd != "1" else "", prop)
     if not os.path.exists(os.path.join(src, "%s.patch" % letter)):
-        src = os.path.join(ROOT, "seeded", "%s-%s%s" % (prop, letter, rnd if rnd != "1" else ""))
+        src = os.path.join(KEEP_ROOT, "seeded", "%s-%s%s" % (prop, letter, rnd if rnd != "1" else ""))
         patch = os.path.join(src, "patch.diff")
     else:
         patch = os.path.join(src, "%s.patch" % letter)
     name = "%s-%s%s" % (prop, letter, rnd if rnd != "1" else "")
-    keep = os.path.join(ROOT, "seeded", name)
+    keep = os.path.join(KEEP_ROOT, "seeded", name)
     meta = {"id": name, "breaks_property": prop, "source": "independent sub-agent given only the property text and a scratch worktree", "ran": []}
     if os.path.exists(os.path.join(keep, "meta.json")):
         meta = json.load(open(os.path.join(keep, "meta.json")))
-    assert sh("git status --short", REPO)[1].strip() == "", "/repo is not clean"
+    if COPY:
+        prepare_copy()
+    assert sh("git status --short", REPO)[1].strip() == "", "the repository to patch is not clean"
     if not skip_confirm and src.startswith("/tmp/mut"):
         if not os.path.exists(WT):
-            rc, o = sh("git worktree add -q --detach %s HEAD" % WT, REPO)
+            rc, o = sh("git worktree add -q --detach %s HEAD" % WT, "/repo")
             assert rc == 0, o
         sh("git checkout -q --detach %s && git checkout -- . && git clean -fdq tests" % subprocess.check_output(["git", "-C", REPO, "rev-parse", "HEAD"], text=True).strip(), WT)
         rc, o = sh("git apply --check %s && git apply %s" % (patch, patch), WT)
@@ -110,7 +129,8 @@ def main():
     try:
         for c in checks:
             t0 = time.time()
-            rc, o = sh("scripts/check.sh %s %s" % (c, tier), ROOT, timeout=7200)
+            env = dict(os.environ, MUT_REPO=REPO, VERIF_ROOT=ROOT) if COPY else None
+            rc, o = sh("scripts/check.sh %s %s" % (c, tier), ROOT, timeout=7200, env=env)
             cls = [l.strip()[7:].strip() for l in o.splitlines() if l.strip().startswith("class:")]
             det = [l.strip()[8:].strip()[:300] for l in o.splitlines() if l.strip().startswith("detail:")]
             res = "DETECTED" if rc == 1 else ("missed" if rc == 0 else "machinery-exit-%d" % rc)
